@@ -1,3 +1,4 @@
 pub mod ast;
 pub mod build;
+pub mod rename;
 pub mod render;
